@@ -65,7 +65,11 @@ def run(repo, tier):
         guarded = False
         last_dn = None          # (kind, idx) of the last ERASE / DATA request whose status has not been tested yet
         polled_after = False
-        for kind, idx, node, args, fname in evs:
+        last_poll_loop = None
+        last_poll = None        # symbolic result of the most recent GETSTATUS on this path
+        last_poll_node = None
+        in_loop_polls = {}      # while node -> names rebound from a poll inside that loop
+        for kind, idx, node, args, fname, raw in evs:
             if kind == 'COND':
                 test, pol = args
                 g = guard_poly(test)
@@ -80,6 +84,20 @@ def run(repo, tier):
                                          'len(firmware) - page_size*page_count > 0'.format(g), file=FILE, line=node.lineno), instance='guard form')
                         guarded = True
                 st = D.status_test(test, consts, helpers, svars)
+                if st is not None and last_poll is not None:
+                    # R19.3 freshness: the tested status must be the one returned by the most recent poll
+                    tested = st[1]
+                    fresh = True
+                    if tested[0] == 'unpack':
+                        src = tested[1]
+                        fresh = src[0] == 'res' and last_poll_node is not None and src[2] == last_poll_node.lineno
+                    elif tested[0] == 'havoc':
+                        fresh = last_poll_node is not None and tested[2] == 'while@{}'.format(getattr(last_poll_loop, 'lineno', -1))
+                    rep.check(fresh, 'R19.3.fresh-status', 'the status compared with STATUS_OK is the one of the last GETSTATUS before the test',
+                              lambda node=node, tested=tested: Finding('R19.3.fresh-status', 'cli_main', node,
+                                                                       'the status tested here ({}) is not the one returned by the most recent GETSTATUS on this path: the polling loop refreshes the '
+                                                                       'state but not the status, so an error reported while the device was settling is missed'.format(show(tested)),
+                                                                       file=FILE, line=node.lineno))
                 if st is not None:
                     bad = (st[0] == 'bad') == pol
                     if last_dn is not None and polled_after:
@@ -127,6 +145,16 @@ def run(repo, tier):
                     last_dn = (kind, node)
                     polled_after = False
             elif kind == 'POLL':
+                last_poll = raw
+                last_poll_node = node
+                # is this poll inside a while loop body?  (its statement's ancestors)
+                last_poll_loop = None
+                anc = getattr(node, '_parent', None)
+                while anc is not None:
+                    if isinstance(anc, ast.While):
+                        last_poll_loop = anc
+                        break
+                    anc = getattr(anc, '_parent', None)
                 if last_dn is not None:
                     polled_after = True
         if last_dn is not None and p.end != 'raise':
